@@ -99,6 +99,23 @@ and is reasoned about over `ℝ` -/
 def bandMask (lt : K → K → Bool) (flow fhigh : K) (r P : Nat → Nat → K) (i j : Nat) : K :=
   if lt (r i j) flow then Num.ofInt 0 else if lt fhigh (r i j) then Num.ofInt 0 else P i j
 
+/-- comparison kinds that may appear in `work[r <cmp> edge] = 0` -/
+inductive Cmp where
+  | lt | le | gt | ge
+  deriving DecidableEq, Repr
+
+/-- `a <cmp> b`, everything expressed through the one strict comparison `lt` -/
+def Cmp.test (lt : K → K → Bool) : Cmp → K → K → Bool
+  | .lt, a, b => lt a b
+  | .le, a, b => !(lt b a)
+  | .gt, a, b => lt b a
+  | .ge, a, b => !(lt a b)
+
+/-- the band mask with the two comparison kinds as parameters (what the translator reads off the source):
+`work[r <lo> flow] = 0; work[r <hi> fhigh] = 0` -/
+def bandMaskGen (lo hi : Cmp) (lt : K → K → Bool) (flow fhigh : K) (r P : Nat → Nat → K) (i j : Nat) : K :=
+  if lo.test lt (r i j) flow then Num.ofInt 0 else if hi.test lt (r i j) fhigh then Num.ofInt 0 else P i j
+
 /-- square of `bandlimited_rms` given the two integration steps -/
 def brmsSq (lt : K → K → Bool) (m n : Nat) (dy dx flow fhigh : K) (r P : Nat → Nat → K) : K :=
   trapz2 m n dy dx (bandMask lt flow fhigh r P)
